@@ -143,8 +143,12 @@ def extract(root=None, work=None, defs=("-DNO_UNIT_TESTS",), drop_flags=(),
                 if f.endswith((".c", ".cpp")) and is_production(p, root):
                     on_disk.append(os.path.relpath(p, root))
         not_built = sorted(set(on_disk) - set(facts))
+        flags = {os.path.relpath(src, root): [a for a in clean_args(args, src, list(defs))
+                                               if a not in drop_flags]
+                 for src, args in db.items()}
         info = {"root": root, "tus": sorted(facts), "not_analysed": not_built,
-                "defs": list(defs), "dropped_flags": list(drop_flags)}
+                "defs": list(defs), "dropped_flags": list(drop_flags),
+                "flags": flags}
         return facts, info
     finally:
         if own:
